@@ -2,7 +2,58 @@
 
 ALL = ["quick", "thorough"]
 
+HAL_RULE = ("cases = (HAL operation out of the 83-entry catalogue in harness/src/hal_ops.rs, backend, N, case seed); the seed fixes column counts and selected "
+            "columns (1..3), limb counts 1..5 with spare capacity, radices, shifts/offsets/rotations/Galois elements, (step, offset), limb_offset, cnv_offset, "
+            "masks and operand values (extreme, alternating, sparse, uniform classes). Non-trivial = N >= 2 and a non-zero result; distinct = hash of the tuple")
+
 PROPS = {
+    "C10": dict(
+        level="exploration",
+        runs=[dict(name="rel", flavour="rel", shards=16, timeout=1200, timeout_thorough=7200)],
+        rule=HAL_RULE + "; each case is executed on two backends (FFT64Ref/FFT64Avx, NTT120Ref/NTT120Avx, FFT64Ref/NTT120Ref, FFT64Avx/NTT120Avx) from different garbage fills and the "
+             "coefficient-domain outputs (DFT-domain results after the inverse transform; for sampling ops also the next draw of the random stream) are compared; operand widths stay inside the FFT64 exactness domain",
+        min_evaluations=dict(quick=200000, thorough=8000000),
+        min_counters=dict(quick={"pair:fft64ref/fft64avx": 20000, "pair:ntt120ref/ntt120avx": 20000, "pair:fft64ref/ntt120ref": 20000},
+                          thorough={"pair:fft64ref/fft64avx": 500000, "pair:ntt120ref/ntt120avx": 500000, "pair:fft64ref/ntt120ref": 500000}),
+        assumptions=["prepared (SvpPPol, VmpPMat, CnvPVec) and DFT-domain buffers are backend specific and are compared only through the coefficient-domain results computed from them",
+                     "cross-family comparisons use operand widths inside the FFT64 exactness predicate of DESIGN §3.3"],
+    ),
+    "C11": dict(
+        level="exploration",
+        runs=[dict(name="rel", flavour="rel", shards=16, timeout=1200, timeout_thorough=7200),
+              dict(name="asan-poison", flavour="asan", shards=16, timeout=1200, timeout_thorough=7200, args=["--mode", "poison", "--scale", "0.5"])],
+        rule=HAL_RULE + "; every case is run twice from two independent garbage fills of the result (all columns, spare capacity) and of the scratch; the selected output bytes must agree and "
+             "every other byte (other columns, limbs beyond size, read-only operands, 256-byte canary guards) must be unchanged; in the asan-poison run every byte outside the selected column is poisoned during the call",
+        min_evaluations=dict(quick=200000, thorough=8000000),
+        min_counters=dict(quick={"double_runs": 200000}, thorough={"double_runs": 8000000}),
+        assumptions=["HAL catalogue only in this revision for the double-run oracle; core operations are covered through the scheme-level checks' own stale-output comparisons"],
+    ),
+    "C12": dict(
+        level="exploration",
+        runs=[dict(name="rel", flavour="rel", shards=16, timeout=1200, timeout_thorough=7200),
+              dict(name="asan", flavour="asan", shards=16, timeout=1200, timeout_thorough=7200, args=["--scale", "0.5"]),
+              dict(name="valgrind-uninit", flavour="valgrind", shards=16, timeout=1500, timeout_thorough=7200, args=["--mode", "uninit", "--scale", "0.5"]),
+              dict(name="miri-uninit", flavour="miri", shards=16, timeout=1500, timeout_thorough=7200, args=["--mode", "uninit", "--scale", "0.002", "--backend", "fft64ref,ntt120ref"])],
+        rule=HAL_RULE + "; restricted to the 30 operations that take scratch; the scratch is a window of exactly the bytes returned by the companion *_tmp_bytes query, 64-byte aligned and flush "
+             "against the end of its allocation (first byte past it is a red zone / guard); two fills must give equal selected bytes; in the uninit runs the window is handed over uninitialised and every "
+             "selected output byte is folded through a branch so that memcheck / Miri report any dependence on it",
+        min_evaluations=dict(quick=60000, thorough=2000000),
+        min_counters=dict(quick={"exact_windows": 60000}, thorough={"exact_windows": 2000000}),
+        assumptions=["HAL (operation, tmp_bytes) pairs in this revision; core/ckks/bin-fhe pairs are exercised by the scheme-level checks with exact windows where wired (see DESIGN §C12)"],
+    ),
+    "C17": dict(
+        level="exploration",
+        runs=[dict(name="asan", flavour="asan", shards=16, timeout=1200, timeout_thorough=7200),
+              dict(name="rel-canary", flavour="rel", shards=16, timeout=1200, timeout_thorough=7200),
+              dict(name="valgrind", flavour="valgrind", shards=16, timeout=1500, timeout_thorough=7200, args=["--mode", "slow", "--scale", "0.5"]),
+              dict(name="miri", flavour="miri", shards=16, timeout=1500, timeout_thorough=7200, args=["--scale", "0.05", "--backend", "fft64ref,ntt120ref"])],
+        rule=HAL_RULE + "; each call gets an exact-size scratch window, operands with size < max_size, poisoned neighbours (ASan), canary guards (all flavours); the verdict comes from "
+             "AddressSanitizer (4 backends, AVX intrinsics instrumented), valgrind memcheck (4 backends incl. the hand-written FFT16 assembly), Miri (reference backends, N <= 16, default aliasing model) and canaries",
+        min_evaluations=dict(quick=200000, thorough=8000000),
+        min_counters=dict(quick={"calls_under_monitor": 200000}, thorough={"calls_under_monitor": 8000000}),
+        assumptions=["Miri needs the System global allocator in the harness binary because of the documented Vec<u8>/align-64 deallocation mismatch (CRITICAL-2 in poulpy-hal/src/lib.rs), which is outside C17's statement",
+                     "red-zone tools miss far out-of-bounds accesses that land in another live object; operands are therefore poisoned or canaried"],
+    ),
     "C07": dict(
         level="exploration",
         runs=[dict(name="rel", flavour="rel", shards=16, timeout=1200, timeout_thorough=7200)],
